@@ -18,3 +18,25 @@ Definition check_rates (gkwh : list fl) (p_kw : list Q) (obs : list fl) : bool :
 (* integration to kg *)
 Definition check_mass (gkwh : list fl) (p_kw dt : list Q) (obs : fl) : bool :=
   match fl2q obs with Some x => close x (mass_kg (map flq gkwh) p_kw dt) | None => false end.
+
+(* ---- which characteristic each species uses (Model/Emis.v): the engine is built from the curve list and the NOx method;
+   one row per species asked: (species, (loads, observed g/kWh at those loads, or None when the engine has no figure)) ---- *)
+From Feems Require Import Model.Emis.
+Definition all_equal (l : list fl) : bool :=
+  match l with
+  | [] => true
+  | a :: r => forallb (fun b => match fl2q a, fl2q b with Some x, Some y => Qeq_bool x y | _, _ => false end) r
+  end.
+Definition check_row (tab : table) (row : nat * (list Q * option (list fl))) : bool :=
+  match tab (fst row), snd (snd row) with
+  | None, None => true
+  | Some (SCurve c), Some vals => check_curve c (fst (snd row)) vals && Nat.eqb (length vals) (length (fst (snd row)))
+  | Some (SLimit _), Some vals => all_equal vals && negb (Nat.eqb (length vals) 0)   (* the value: enclosure lemma of the limit stream *)
+  | _, _ => false
+  end.
+Definition check_setup (cs : list (nat * list (Q * Q))) (m : nox_method) (accepted : bool)
+                       (rows : list (nat * (list Q * option (list fl)))) : bool :=
+  match setup cs m with
+  | None => negb accepted
+  | Some tab => accepted && forallb (check_row tab) rows
+  end.
